@@ -132,6 +132,8 @@ Record body_case := {
   b_zip : bool; b_minlen : Z;         (* proxy `compression` configured, its minLength *)
   b_ae : option string;               (* the client's Accept-Encoding (None = absent) *)
   b_gz : string;                      (* oracle: gzip of the body the backend's framing carries *)
+  b_get : bool;                       (* a body-less GET (cacheable) instead of the POST *)
+  b_cmax : Z;                         (* > 0: the pool has a memoryCache (GET, 200) with this maxEntryBytes *)
   b_retry : bool;                     (* pool retryPolicy (2 attempts) + failureCodes [b_first_status] *)
   b_first_status : Z; b_first_body : string;   (* the backend's answer to the first request it receives *)
   b_obbody2 : string;                 (* body of the second complete request the backend received *)
@@ -224,20 +226,60 @@ Fixpoint reloads (prev : option config) (l : list body_case) : nat :=
   | c :: t => (match prev with Some p => if cfg_eqb p (b_cfg c) then 0 else 1 | None => 0 end + reloads (Some (b_cfg c)) t)%nat
   end.
 
+Definition step_of (c : body_case) : (config * Z) * bool * wire string * Z * wire string :=
+  ((b_cfg c, b_cmax c), b_get c, req_wire c, b_status c, resp_wire c).
+
+Definition reload_model (h : reload_case) : list (outcome string) :=
+  hrun slen stake EmptyString None None (map step_of (rl_steps h)).
+
+Definition server_eff (c : body_case) : Z := spec_norm (effective (c_pool (b_cfg c)) (c_proxy (b_cfg c))).
+
+(** the observed answer came out of the cache: the backend saw nothing although the request
+    itself was acceptable *)
+Definition looks_like_hit (c : body_case) : bool :=
+  b_get c && (0 <? b_cmax c) && (b_oheads c =? 0) && negb ((b_ostatus c =? 413) || (b_ostatus c =? 400)).
+
+(** the property per step of a history.  Steps that reached the backend are judged as single
+    exchanges under the limits in force.  An answer from the cache must be the answer some
+    earlier GET of the SAME pipeline generation got from the backend, and - the limit in
+    force being the one of the generation that serves the request - must fit that limit *)
+Fixpoint prop_reload (same_gen : list body_case) (l : list body_case) : bool :=
+  match l with
+  | [] => true
+  | c :: t =>
+      let gen := match same_gen with
+                 | p :: _ => if pipe_same (b_cfg p, b_cmax p) (b_cfg c, b_cmax c) then same_gen else []
+                 | [] => [] end in
+      (if looks_like_hit c then
+         existsb (fun j => b_get j && (b_oheads j =? 1) && (b_status j =? 200) && (b_ostatus j =? 200) &&
+                           (b_ostatus c =? 200) && String.eqb (b_obody j) (b_obody c)) gen &&
+         ((server_eff c <? 0) || (slen (b_obody c) <=? server_eff c)) && b_oframe c
+       else snd (fst (fst (check_body c)))) &&
+      prop_reload (c :: gen) t
+  end.
+
+Fixpoint corr_reload (l : list body_case) (outs : list (outcome string)) : bool :=
+  match l, outs with
+  | [], [] => true
+  | c :: t, o :: t' => negb (b_bad c) && corr_serve EmptyString String.eqb o (body_obs c) && corr_reload t t'
+  | _, _ => false
+  end.
+
 Definition check_reload (h : reload_case) : result :=
   if rl_bad h then (false, false, 1%N, 0%N) else
-  let rs := map check_body (rl_steps h) in
-  (forallb (fun r => fst (fst (fst r))) rs, forallb (fun r => snd (fst (fst r))) rs,
+  (corr_reload (rl_steps h) (reload_model h), prop_reload [] (rl_steps h),
    match rl_steps h with
    | [] => 0%N
    | _ =>
        let k := N.of_nat (Nat.min 3 (reloads None (rl_steps h))) in
        let b1 := existsb (fun c => b_ostatus c =? 413) (rl_steps h) in
        let b2 := existsb (fun c => c_path (b_cfg c) =? 0) (rl_steps h) in
-       (1 + k + bN b1 4 + bN b2 8)%N
+       let b3 := existsb looks_like_hit (rl_steps h) in
+       let b4 := existsb (fun c => 0 <? b_cmax c) (rl_steps h) in
+       (1 + k + bN b1 4 + bN b2 8 + bN b3 16 + bN b4 32)%N
    end, 0%N).
 
-Definition explain_reload (h : reload_case) := map body_model (rl_steps h).
+Definition explain_reload (h : reload_case) := reload_model h.
 
 (** *** instance: lengths only (4 MiB cases); "intact" bits are computed by the harness *)
 Record big_case := {
